@@ -1153,7 +1153,8 @@ func (e *Entry) ApplyDeviate(deviateOpts ...DeviateOpt) []error {
 			continue
 		}
 
-		for dt, dv := range d.Deviate {
+		for _, od := range d.orderedDeviates() {
+			dt, dv := od.dt, od.specs
 			for _, devSpec := range dv {
 				switch dt {
 				case DeviationAdd, DeviationReplace:
@@ -1273,6 +1274,40 @@ func (e *Entry) ApplyDeviate(deviateOpts ...DeviateOpt) []error {
 	}
 
 	return errs
+}
+
+// orderedDeviate is one deviate statement of a deviation: its kind and the
+// entry holding what it specifies.
+type orderedDeviate struct {
+	dt    deviationType
+	specs []*Entry
+}
+
+// orderedDeviates returns the deviate statements of d in the order in which
+// they were written. The Deviate map groups them by kind, and ranging over a
+// map has no defined order, but the effect of e.g. "deviate delete { default }"
+// followed by "deviate add { default }" depends on it.
+func (d *DeviatedEntry) orderedDeviates() []orderedDeviate {
+	var out []orderedDeviate
+	dn, ok := d.Node.(*Deviation)
+	if !ok {
+		for dt, dv := range d.Deviate {
+			out = append(out, orderedDeviate{dt, dv})
+		}
+		return out
+	}
+	next := map[deviationType]int{}
+	for _, sd := range dn.Deviate {
+		dt, ok := toDeviation[sd.Statement().Argument]
+		if !ok {
+			continue
+		}
+		if i := next[dt]; i < len(d.Deviate[dt]) {
+			out = append(out, orderedDeviate{dt, d.Deviate[dt][i : i+1]})
+			next[dt] = i + 1
+		}
+	}
+	return out
 }
 
 // FixChoice inserts missing Case entries for non-case entries within a choice
